@@ -382,7 +382,7 @@ func cmdCrash(args []string) {
 	sem := make(chan struct{}, *par)
 	var wg sync.WaitGroup
 	r.Srv.SetKeepLog(false) // the request log is only needed by the reference run's wedge detector
-	var failed int32         // experiments that ended badly so far: after 24 the verdict is clear, the rest is skipped
+	var failed int32        // experiments that ended badly so far: after 24 the verdict is clear, the rest is skipped
 	skipped := 0
 	for i, e := range exps {
 		if atomic.LoadInt32(&failed) >= 24 {
